@@ -158,6 +158,16 @@ def isGeneratedName (n : Bytes) : Bool :=
 def stmtTables (stmts : List Stmt) : List Bytes :=
   stmts.flatMap fun | .tabular t => tabularTables t | _ => []
 
+def hasDup' : List Bytes → Bool
+  | [] => false
+  | x :: xs => xs.contains x || hasDup' xs
+
+/-- K3: a name chosen with `as`, or a source table, collides with another CTE name -/
+def nameCapture (stmts : List Stmt) : Bool :=
+  let asNames := stmtAsNames stmts
+  let src := stmtTables stmts
+  hasDup' asNames || asNames.any isGeneratedName || src.any isGeneratedName || asNames.any src.contains
+
 def hasDup : List Bytes → Bool
   | [] => false
   | x :: xs => xs.contains x || hasDup xs
